@@ -475,7 +475,12 @@ fn main() {
             println!("type={:?}", MadeHand::from(arr).hand_type());
         }
         "parse" => cmd_parse(&args[1], args.get(2).map(|s| s.as_str()).unwrap_or("")),
-        "roundtrip" => cmd_roundtrip(&args[1]),
+        "roundtrip" => {
+            let spec = args[1].clone();
+            if let Err(e) = catch_unwind(move || cmd_roundtrip(&spec)) {
+                println!("panic={}", pmsg(e));
+            }
+        }
         "enumerate" => cmd_enumerate(&args[1..]),
         "drain" => cmd_drain(&args[1..]),
         "tally" => cmd_tally(&args[1..]),
